@@ -131,6 +131,12 @@ theorem deltaSince_one_behind (h : History) (d : PayloadDelta) (rest : List Payl
   simp only [hd]
   rw [if_neg (by simp [hlt]), if_neg hne, if_pos h1]
 
+theorem oldest_serial {a : Nat} {ds : List PayloadDelta} (hs : SerialsFrom a ds.reverse)
+    (h0 : ds ≠ []) : ds.reverse.head?.map (·.serial) = some (a % serialMod) := by
+  cases hr : ds.reverse with
+  | nil => simp at hr; exact absurd hr h0
+  | cons x xs => rw [hr] at hs; simp [hs.head]
+
 /-- A client at the serial of a retained delta that is not the newest gets the fold of
 `merge` over all newer deltas. -/
 theorem deltaSince_found (h : History) (a j : Nat) (hs : SerialsFrom a h.deltas.reverse)
@@ -165,25 +171,29 @@ theorem deltaSince_found (h : History) (a j : Nat) (hs : SerialsFrom a h.deltas.
       refine ⟨d, [], ?_, ?_⟩
       · rw [List.reverse_cons, hj', List.drop_append]; simp
       · simp [h1]
-    · simp only [h1, if_false]
+    · have hb : ((d :: rest).reverse.head?.map (·.serial)
+          == some (serialAdd ((a + j) % serialMod) 1)) = false := by
+        rw [oldest_serial hs (by simp)]
+        simp; unfold serialAdd serialMod serialHalf at *; omega
+      simp only [h1, if_false, hb, Bool.and_false, Bool.false_eq_true]
       have hf := skipTo_found (d :: rest).reverse a j hs (by simp; omega) (by omega)
       rw [hf]
       have hlen : j + 1 < ((d :: rest).reverse).length := by simp; omega
       rw [List.drop_eq_getElem_cons hlen]
       exact ⟨_, _, rfl, rfl⟩
 
-/-- Every other client serial is refused (`n ≤ j`: not the serial of a retained delta;
-with a single delta the serial just before it is the "one behind" case). -/
+/-- Every other client serial is refused (`n ≤ j`: not the serial of a retained delta, and
+`j ≠ 2^32 - 1`: not the version the oldest retained delta starts from). -/
 theorem deltaSince_refuse (h : History) (a j : Nat) (hs : SerialsFrom a h.deltas.reverse)
     (hn : h.deltas.length < serialHalf) (h0 : h.deltas ≠ [])
     (hj : h.deltas.length ≤ j) (hjm : j < serialMod)
-    (hx : ¬ (h.deltas.length = 1 ∧ j = serialMod - 1)) :
+    (hx : j ≠ serialMod - 1) :
     h.deltaSince ((a + j) % serialMod) = none := by
   cases hds : h.deltas with
   | nil => exact absurd hds h0
   | cons d rest =>
-    rw [hds] at hs hn hj hx
-    simp only [List.length_cons] at hn hj hx
+    rw [hds] at hs hn hj
+    simp only [List.length_cons] at hn hj
     have hd := front_serial hs
     have hp := serialPcmp_two a rest.length j (by unfold serialMod serialHalf at *; omega) hjm
     have te : (j + serialMod - rest.length) % serialMod = j - rest.length := by
@@ -205,7 +215,11 @@ theorem deltaSince_refuse (h : History) (a j : Nat) (hs : SerialsFrom a h.deltas
         rw [hd]; unfold serialMod serialHalf at *; omega
       have h1 : d.serial ≠ serialAdd ((a + j) % serialMod) 1 := by
         rw [hd]; unfold serialAdd; unfold serialMod serialHalf at *; omega
-      simp only [hl, hne, h1, if_false, Bool.false_eq_true]
+      have hb : ((d :: rest).reverse.head?.map (·.serial)
+          == some (serialAdd ((a + j) % serialMod) 1)) = false := by
+        rw [oldest_serial hs (by simp)]
+        simp; unfold serialAdd serialMod serialHalf at *; omega
+      simp only [hl, hne, h1, if_false, Bool.false_eq_true, hb, Bool.and_false]
       have hr : ∃ x xs, (d :: rest).reverse = x :: xs := by
         cases hrev : (d :: rest).reverse with
         | nil => simp at hrev
@@ -213,6 +227,54 @@ theorem deltaSince_refuse (h : History) (a j : Nat) (hs : SerialsFrom a h.deltas
       obtain ⟨x, xs, hr⟩ := hr
       rw [hr] at hs ⊢
       rw [skipTo_refuse x xs a j hs (by unfold serialHalf at *; omega) hjm]
+
+/-- A client at the version the oldest retained delta starts from (serial `a - 1`) gets the
+fold of `merge` over **all** retained deltas (second repair; with a single delta this is
+the "one behind" shortcut). -/
+theorem deltaSince_base (h : History) (a : Nat) (hs : SerialsFrom a h.deltas.reverse)
+    (hn : h.deltas.length < serialHalf) (h0 : h.deltas ≠ []) :
+    ∃ x xs, h.deltas.reverse = x :: xs ∧
+      h.deltaSince ((a + (serialMod - 1)) % serialMod) = some (xs.foldl PayloadDelta.merge x) := by
+  cases hds : h.deltas with
+  | nil => exact absurd hds h0
+  | cons d rest =>
+    rw [hds] at hs hn
+    simp only [List.length_cons] at hn
+    have hd := front_serial hs
+    have hcl : (a + (serialMod - 1)) % serialMod < serialMod :=
+      Nat.mod_lt _ (by unfold serialMod; omega)
+    by_cases hr0 : rest = []
+    · -- a single delta: one behind
+      subst hr0
+      have h1 : d.serial = serialAdd ((a + (serialMod - 1)) % serialMod) 1 := by
+        rw [hd]; unfold serialAdd serialMod; simp; omega
+      refine ⟨d, [], by simp, ?_⟩
+      exact deltaSince_one_behind h d [] hds _ hcl h1
+    · have hpos : 0 < rest.length := List.length_pos_iff.mpr hr0
+      have hp := serialPcmp_two a rest.length (serialMod - 1)
+        (by unfold serialMod serialHalf at *; omega) (by unfold serialMod; omega)
+      have t1 : (serialMod - 1 + serialMod - rest.length) % serialMod ≠ 0 := by
+        unfold serialMod serialHalf at *; omega
+      have t2 : ¬ (serialMod - 1 + serialMod - rest.length) % serialMod < serialHalf := by
+        unfold serialMod serialHalf at *; omega
+      have t3 : (serialMod - 1 + serialMod - rest.length) % serialMod ≠ serialHalf := by
+        unfold serialMod serialHalf at *; omega
+      simp only [t1, t2, t3, if_false] at hp
+      have hlt : serialLt d.serial ((a + (serialMod - 1)) % serialMod) = false := by
+        unfold serialLt; rw [hd, hp]; rfl
+      have hne : d.serial ≠ (a + (serialMod - 1)) % serialMod := by
+        rw [hd]; unfold serialMod serialHalf at *; omega
+      have h1 : d.serial ≠ serialAdd ((a + (serialMod - 1)) % serialMod) 1 := by
+        rw [hd]; unfold serialAdd; unfold serialMod serialHalf at *; omega
+      have hb : ((d :: rest).reverse.head?.map (·.serial)
+          == some (serialAdd ((a + (serialMod - 1)) % serialMod) 1)) = true := by
+        rw [oldest_serial hs (by simp)]
+        simp; unfold serialAdd serialMod; omega
+      unfold History.deltaSince History.deltaSinceWith
+      simp only [hds, hlt, hne, h1, if_false, Bool.false_eq_true, hb, Bool.and_true, if_true]
+      cases hrev : (d :: rest).reverse with
+      | nil => simp at hrev
+      | cons x xs => exact ⟨x, xs, rfl, rfl⟩
 
 /-! ### `consecutive` (the deltas between the versions of a log) -/
 
